@@ -222,7 +222,7 @@ Theorem C03_reachable_solved_is_fresh (P X S E D O : Type) (assign1 : X -> P -> 
   lt k (length vs) ->
   List.nth k avs (KalmanSession.mkAv P p None) = KalmanSession.mkAv P p (Some p) ->
   List.nth k (List.map snd (KalmanSession.call_model P S E D O devsol expand fwd_of kf sim b dev vs ds dd)) None
-  = List.nth O (List.map snd (KalmanSession.call_model P S E D O devsol expand fwd_of kf sim b dev (KalmanSession.fresh P S E solve1 p)
+  = List.nth 0%nat (List.map snd (KalmanSession.call_model P S E D O devsol expand fwd_of kf sim b dev (KalmanSession.fresh P S E solve1 p)
                                  (cons (KalmanSession.etl ds dd k) nil) dd)) None.
 Proof. exact (KalmanSessionProofs.reachable_solved_is_fresh P X S E D O assign1 solve1 devsol expand fwd_of kf sim ops p0 b dev vs avs ds dd k p). Qed.
 
